@@ -1,6 +1,7 @@
 package main
 
 import (
+	"go/types"
 	"strings"
 
 	"golang.org/x/tools/go/ssa"
@@ -12,6 +13,72 @@ func init() {
 
 func runC18(e *Engine, tier Tier) *PropRun {
 	opts := &VCOpts{Safety: true, InlineDepth: 2}
+	// object invariant of the documents held by the manager: assumed for what is read from the map, an obligation for
+	// what is put into it and, at every return, for every document that was read from it (it may have been edited)
+	docT, _ := e.resolveType(modPath+"/pkg/lsp", "*Document")
+	isDocMap := func(t types.Type) bool {
+		mt, ok := underlying(t).(*types.Map)
+		return ok && docT != nil && types.Identical(mt.Elem(), docT)
+	}
+	docOK := func(fr *Frame, st *State, p string) (string, bool) {
+		env := newSpecEnv(fr, fr.fn)
+		env.st, env.old = st, st
+		env.names["d"] = SV{T: docT, V: Val{C: []string{p}}}
+		c, err := parseClause("docOK(d)")
+		if err != nil {
+			return "", false
+		}
+		t, err := env.evalBool(c.Expr)
+		return t, err == nil
+	}
+	seenDocs := map[*Frame][]string{}
+	opts.OnMapLookup = func(fr *Frame, x *ssa.Lookup, v Val) {
+		if !isDocMap(x.X.Type()) {
+			return
+		}
+		if t, ok := docOK(fr, fr.cur.st, v.C[0]); ok {
+			fr.q.assume(fr.cur.reach, sImp("(not (= "+v.C[0]+" 0))", t))
+			seenDocs[fr.root()] = append(seenDocs[fr.root()], v.C[0])
+		}
+	}
+	opts.OnMapUpdate = func(fr *Frame, x *ssa.MapUpdate) {
+		if !isDocMap(x.Map.Type()) {
+			return
+		}
+		p := fr.val(x.Value).C[0]
+		if t, ok := docOK(fr, fr.cur.st, p); ok {
+			fr.q.addObligation(fr, "struct", "document stored in the manager mirrors its content (docOK)", x.Pos(), fr.cur.reach, sImp("(not (= "+p+" 0))", t))
+		}
+	}
+	editsDoc := func(fn *ssa.Function) bool {
+		for _, b := range fn.Blocks {
+			for _, ins := range b.Instrs {
+				if st, ok := ins.(*ssa.Store); ok {
+					if fa, ok := st.Addr.(*ssa.FieldAddr); ok && docT != nil && types.Identical(fa.X.Type(), docT) {
+						// the document must be one that came out of the manager's map (not a fresh copy being filled in)
+						v := fa.X
+						if ex, ok := v.(*ssa.Extract); ok {
+							v = ex.Tuple
+						}
+						if lk, ok := v.(*ssa.Lookup); ok && isDocMap(lk.X.Type()) {
+							return true
+						}
+					}
+				}
+			}
+		}
+		return false
+	}
+	opts.OnReturn = func(fr *Frame, ret *ssa.Return, results []Val) {
+		if !editsDoc(fr.fn) {
+			return // only functions that assign a document's fields can break its invariant
+		}
+		for _, p := range seenDocs[fr] {
+			if t, ok := docOK(fr, fr.cur.st, p); ok {
+				fr.q.addObligation(fr, "struct", "document read from the manager still mirrors its content at return (docOK)", ret.Pos(), fr.cur.reach, sImp("(not (= "+p+" 0))", t))
+			}
+		}
+	}
 	fns := e.sourceFns(func(fn *ssa.Function, file string) bool {
 		return strings.HasPrefix(file, "pkg/lsp/") && fn.Parent() == nil
 	})
